@@ -89,7 +89,7 @@ func (g *dnsGate) TimedOut() bool {
 func mxOfName(name string) int {
 	// "mx2.example.invalid." / "_25._tcp.mx2.example.invalid."
 	name = strings.TrimPrefix(name, "_25._tcp.")
-	if !strings.HasPrefix(name, "mx") {
+	if !strings.HasPrefix(name, "mx") && !strings.HasPrefix(name, "cn") { // cnN = canonical name of mxN
 		return 0
 	}
 	n := 0
